@@ -309,6 +309,8 @@ class Exec:
             return BV_(False)
         if txt == "()":
             return Agg("tuple", [])
+        if txt.startswith('"') and txt.endswith('"'):
+            return Agg("str", [txt[1:-1]])
         if txt.startswith("ZeroSized:"):
             return Agg("closure", [])
         if txt == "RangeFull":
@@ -416,18 +418,26 @@ class Exec:
             if isinstance(a, BV_):
                 return BV_((not a.t) if a.conc() else z3.Not(a.t))
             raise Unsupported("unop " + s)
+        m = re.match(r"^([\w:<>, &\[\]]+?) \{ (.*) \}$", s)
+        if m and ": " in m.group(2):
+            name = re.sub(r"::<.*$", "", m.group(1)).split("::")[-1]
+            fields = []
+            for part in split_top(m.group(2)):
+                k, v = part.split(": ", 1)
+                fields.append(self.operand(fr, v, path))
+            return Agg(name, fields)
         if s.startswith("discriminant("):
             v = self.place(fr, s[len("discriminant("):-1]).get()
             return IV(DISCR[v.kind], "isize")
         if m:  # ADT constructor: Fp(move _1) / Some(..)
             name = m.group(1)
             return Agg(name, [self.operand(fr, x, path) for x in split_top(m.group(2))])
-        m = re.match(r"^([\w:<>, ]+?)::(\w+)\((.*)\)$", s)
-        if m:
+        m = re.match(r"^([\w:<>, &\[\]]+?)::(\w+)\((.*)\)$", s)
+        if m and m.group(2) in DISCR:
             return Agg(m.group(2), [self.operand(fr, x, path) for x in split_top(m.group(3))])
         if re.match(r"^\w+$", s) and s in DISCR:
             return Agg(s, [])
-        m = re.match(r"^([\w:<>, ]+?)::(\w+)$", s)
+        m = re.match(r"^([\w:<>, &\[\]]+?)::(\w+)$", s)
         if m and m.group(2) in DISCR:
             return Agg(m.group(2), [])
         raise Unsupported("rvalue " + s)
@@ -798,6 +808,68 @@ class Exec:
             return Iter_([Agg("tuple", [a.items[i], b.items[i]]) for i in range(n)])
         if " as Iterator>::enumerate" in fn:
             return Iter_([Agg("tuple", [IV(i, "usize"), x]) for i, x in enumerate(args[0].items)])
+        if re.match(r"^BTreeSet::<.*>::new$", fn):
+            return Agg("BTreeSet", [])          # entries: Agg('entry', [key, BV_ present])
+        if re.match(r"^BTreeSet::<.*>::insert$", fn):
+            st = args[0].get()
+            key = args[1]
+            eqs = []
+            for e in st.f:
+                k2, pres = e.f
+                eqs.append(z3.And(pres.t if not pres.conc() else z3.BoolVal(pres.t), val_eq(key, k2)))
+            fresh = z3.Not(z3.Or(*eqs)) if eqs else z3.BoolVal(True)
+            fresh = z3.simplify(fresh)
+            newb = BV_(True) if z3.is_true(fresh) else (BV_(False) if z3.is_false(fresh) else BV_(fresh))
+            st.f.append(Agg("entry", [key, newb]))
+            return newb
+        if re.match(r"^BTreeSet::<.*>::(len|is_empty)$", fn):
+            st = args[0].get()
+            terms = [(e.f[1].t if not e.f[1].conc() else z3.BoolVal(e.f[1].t)) for e in st.f]
+            if fn.endswith("is_empty"):
+                if not terms:
+                    return BV_(True)
+                r = z3.simplify(z3.Not(z3.Or(*terms)))
+                return BV_(True) if z3.is_true(r) else (BV_(False) if z3.is_false(r) else BV_(r))
+            if all(e.f[1].conc() for e in st.f):
+                return IV(sum(1 for e in st.f if e.f[1].t), "usize")
+            return IV(z3.Sum(*[z3.If(t, 1, 0) for t in terms]), "usize")
+        if re.match(r"^alloc::vec::Vec::<.*>::new$", fn):
+            return Agg("Vec", [])
+        if re.match(r"^alloc::vec::Vec::<.*>::push$", fn):
+            args[0].get().f.append(args[1])
+            return Agg("tuple", [])
+        if re.match(r"^alloc::vec::Vec::<.*>::len$", fn):
+            return IV(len(args[0].get().f), "usize")
+        if re.match(r"^Option::<.*>::is_none$", fn):
+            return BV_(args[0].get().kind == "None")
+        if re.match(r"^<Option<usize> as PartialEq>::(ne|eq)$", fn):
+            a, b = args[0].get(), args[1].get()
+            if a.kind != b.kind:
+                eq = False
+            elif a.kind == "None":
+                eq = True
+            else:
+                x, y = a.f[0], b.f[0]
+                if not (x.conc() and y.conc()):
+                    raise Unsupported("symbolic Option<usize> comparison")
+                eq = x.t == y.t
+            return BV_(eq if fn.endswith("::eq") else not eq)
+        if fn.endswith("::to_vec") and "slice" in fn:
+            src = args[0]
+            v = src.get() if isinstance(src, Ref) else src
+            return Agg("Vec", [copy_val(x) for x in v.f])
+        if re.match(r"^<alloc::vec::Vec<.*> as Index<core::ops::Range<usize>>>::index$", fn):
+            vec = args[0].get()
+            lo, hi = args[1].f
+            if not (lo.conc() and hi.conc()):
+                raise Unsupported("symbolic range index")
+            ok = lo.t <= hi.t <= len(vec.f)
+            path.oblig.append((list(path.pc), z3.BoolVal(ok), "slice index %d..%d within Vec of length %d" % (lo.t, hi.t, len(vec.f))))
+            if not ok:
+                raise Unsupported("slice index out of range (panic path)")
+            return Ref(Cell(Agg("slice", vec.f[lo.t:hi.t])))
+        if fn in ("<T as IntoIterator>::into_iter", "<<T as IntoIterator>::IntoIter as IntoIterator>::into_iter"):
+            return args[0]
         if "IndexMut<RangeFull>>::index_mut" in fn or "Index<RangeFull>>::index" in fn:
             return args[0]
         if fn.endswith("ByteOrder>::read_u64_into"):
@@ -896,6 +968,19 @@ class Exec:
             b = args[1].get()
             return BV_(a.kind == b.kind)
         return NotImplemented
+
+
+def val_eq(a, b):
+    """structural equality of two values as a z3 Bool"""
+    if isinstance(a, IV):
+        r = (a.t == b.t)
+        return z3.BoolVal(r) if isinstance(r, bool) else r
+    if isinstance(a, Agg):
+        if len(a.f) != len(b.f):
+            return z3.BoolVal(False)
+        parts = [val_eq(x, y) for x, y in zip(a.f, b.f)]
+        return z3.And(*parts) if parts else z3.BoolVal(True)
+    raise Unsupported("val_eq on %r" % (a,))
 
 
 def copy_val(v):
